@@ -554,14 +554,14 @@ double Find_Root(std::function<double(double)> func, double xLeft, double xRight
 			double x4 = x3 + (x3 - x1) * Sign(f1 - f2) * f3 / sqrt(f3 * f3 - f1 * f2);
 			// Rounding (or under-/overflow of the products) must not carry the new point out of the bracket
 			x4 = std::min(std::max(x4, std::min(x1, x2)), std::max(x1, x2));
-			// Check if we found the root
-			if(fabs(x4 - result) < xAccuracy)
-				return x4;
+			// Successive iterates agree: a candidate for the root (confirmed below)
+			bool converged = fabs(x4 - result) < xAccuracy;
 			// Prepare next iteration
 			result	  = x4;
 			double f4 = func(x4);
 			if(f4 == 0.0)
 				return result;
+			bool x4_is_x1 = false;
 			// a) x3 and x4 bracket the root
 			if(Sign(f3, f4) != f3)
 			{
@@ -579,13 +579,38 @@ double Find_Root(std::function<double(double)> func, double xLeft, double xRight
 			// c) x2 and x4 bracket the root
 			else if(Sign(f2, f4) != f2)
 			{
-				x1 = x4;
-				f1 = f4;
+				x1		 = x4;
+				f1		 = f4;
+				x4_is_x1 = true;
 			}
 			else
 			{
 				std::cerr << "Error in libphysica::Find_Root(). Ridder's method does not reach the root." << std::endl;
 				std::exit(EXIT_FAILURE);
+			}
+			// x4 is now one end of the bracket. It is the root to the requested accuracy
+			// only if the function changes sign within xAccuracy of it.
+			if(fabs(x2 - x1) <= xAccuracy)
+				return x4;
+			if(converged)
+			{
+				// Probe one accuracy step into the bracket.
+				double x_other = x4_is_x1 ? x2 : x1;
+				double x_probe = (x_other > x4) ? x4 + xAccuracy : x4 - xAccuracy;
+				double f_probe = func(x_probe);
+				if(f_probe == 0.0 || Sign(f_probe) != Sign(f4))
+					return x4;
+				// No sign change yet (the iterates creep): continue with the tighter bracket.
+				if(x4_is_x1)
+				{
+					x1 = x_probe;
+					f1 = f_probe;
+				}
+				else
+				{
+					x2 = x_probe;
+					f2 = f_probe;
+				}
 			}
 		}
 		std::cout << "Warning in libphysica::Find_Root(): Iterations exceed the maximum. Final value f(" << result << ")=" << func(result) << std::endl;
